@@ -13,7 +13,15 @@
 (*            was overwritten field by field (CloneSwap)                      *)
 (*    alias |-> BOOLEAN, self |-> BOOLEAN   (MutRes) writing through the      *)
 (*            result changed the registry / the result is the registered      *)
-(*            object]                                                         *)
+(*            object,                                                         *)
+(*    creg |-> Seq(...), ch |-> STRING   (OnClone) projection / deep            *)
+(*            fingerprint of the copy; taken only when the wrapped operation  *)
+(*            is Peek (seen = TRUE), otherwise the copy is not looked at]     *)
+(* reg, h0, h1 always describe the registry the behaviour works on (the       *)
+(* source of the copy), also on steps addressed to the copy.  The copy is     *)
+(* followed by the specification alone between two Peeks: what a resolver     *)
+(* returns for it is judged against the registry the copy must hold by its    *)
+(* history (the source when Clone was called + what was addressed to it).     *)
 (* ret is "ok" / "nil" / "err", or "panic" / "fatal" / "timeout" when the     *)
 (* call did not come back.  The judge never blocks: deviations become         *)
 (* witnesses and the spec state is resynchronised on the observed one.        *)
@@ -49,24 +57,40 @@ RegDiff(obs, exp) ==
 Crashes == {"panic", "fatal", "timeout"}
 HasQ(name) == name \in {"Resolve", "ToXML", "Info", "MutRes"}
 
-Judge(e) ==
+\* cur = [reg, ok      the source registry as observed after the previous step / does it denote an abstract registry
+\*        cl, has, clok  the copy as it must be (as observed, after a Peek) / is there one / is it an abstract registry
+\*        clh            deep fingerprint of the copy at the last Peek ("" = none, or the copy was changed on request since)
+\*        srcch, clrd    since that Peek (or Clone): was the source changed / was the copy read]
+Cur0 == [reg |-> InitSt.reg, ok |-> TRUE, cl |-> InitSt.cl, has |-> FALSE, clok |-> TRUE, clh |-> "",
+         srcch |-> FALSE, clrd |-> FALSE, clch |-> FALSE]
+AsSt(c) == [reg |-> c.reg, cl |-> c.cl, has |-> c.has]
+
+\* a step addressed to the registry the behaviour works on
+JudgeSrc(e) ==
   LET name == e.op.op
       api  == Api(e.op)
       reg0 == cur.reg
-      exp  == Apply(cur, e.op)
+      exp  == Apply(AsSt(cur), e.op)
       cls  == IF HasQ(name) THEN EndClass(reg0, e.op.q) ELSE "-"
       diff == RegDiff(ObsFn(e.reg), ExpFn(exp.reg))
   IN
   IF ~cur.ok THEN {}                \* the state before the call is not an abstract registry (already reported)
   ELSE IF e.ret = "skipped" THEN {}      \* not executed (budget rule of the harness after a call that did not come back)
+  \* C14 speaks about registries, not about how they are read from XML: what a loader does with its input is
+  \* recorded for the evidence file only; the judge goes on from the registry the loader left behind
+  ELSE IF name = "LoadXML" THEN
+       IF e.ret # "ok" THEN {<<"INFO-C14", "xml-loader-rejects-input", api, e.ret>>}
+                            \cup (IF e.op.how # "doc" /\ RegDiff(ObsFn(e.reg), ExpFn(reg0)) # ""
+                                   THEN {<<"INFO-C14", "xml-loader-rejects-input-but-changes-registry", api>>} ELSE {})
+       ELSE IF diff # "" THEN {<<"INFO-C14", "xml-loader-registry-differs", api, diff>>} ELSE {}
   ELSE IF e.ret \in Crashes THEN {<<"C14", e.ret, api, cls>>}
   ELSE
-       (IF e.ret # Ret(cur, e.op) THEN {<<"C14", "ret", api, cls>>} ELSE {})
+       (IF e.ret # Ret(AsSt(cur), e.op) THEN {<<"C14", "ret", api, cls>>} ELSE {})
   \cup (IF diff = "" THEN {}
         ELSE IF name = "CloneSwap" THEN {<<"C14", "clone-differs", diff>>}
-        ELSE IF name \in Readers THEN {<<"C14", "registry-modified", api, cls, diff>>}
+        ELSE IF name \in Readers \cup {"Clone"} THEN {<<"C14", "registry-modified", api, cls, diff>>}
         ELSE {<<"C14", "registry-differs", api, diff>>})
-  \cup (IF name \in Readers /\ name # "CloneDrop" /\ e.h0 # e.h1
+  \cup (IF name \in (Readers \cup {"Clone"}) /\ name # "CloneDrop" /\ e.h0 # e.h1
           THEN {<<"C14", "registry-modified", api, cls, "deep">>} ELSE {})
   \cup (IF name = "CloneDrop" /\ e.h0 # e.h1 THEN {<<"C14", "clone-shares-state", "source-follows-clone">>} ELSE {})
   \cup (IF name = "CloneSwap" /\ e.c0 # e.c1 THEN {<<"C14", "clone-shares-state", "clone-follows-source">>} ELSE {})
@@ -79,16 +103,69 @@ Judge(e) ==
   \cup (IF name = "MutRes" /\ e.ret = "ok" /\ e.alias
           THEN {<<"INFO-C14", "result-aliases-registry", IF e.self THEN "registered-object" ELSE "merged-copy">>} ELSE {})
 
-TInit == l = 1 /\ cur = [reg |-> InitSt.reg, ok |-> TRUE] /\ wit = {}
+\* what happened to the pair since the copy was last looked at (part of signatures)
+Since == IF cur.clch THEN "after-own-change" ELSE IF cur.srcch THEN "after-source-change"
+         ELSE IF cur.clrd THEN "after-reads" ELSE "as-taken"
+
+\* a step addressed to the copy: [op |-> "OnClone", o |-> the operation]
+JudgeCopy(e) ==
+  LET o    == e.op.o
+      name == o.op
+      api  == Api(e.op)
+      reg0 == cur.cl
+      cls  == IF HasQ(name) THEN EndClass(reg0, o.q) ELSE "-"
+      sdiff == RegDiff(ObsFn(e.reg), ExpFn(cur.reg))
+      cdiff == RegDiff(ObsFn(e.creg), ExpFn(reg0))
+  IN
+  IF e.ret = "skipped" THEN {}
+  ELSE IF ~cur.has THEN (IF e.ret # "noclone" THEN {<<"C14", "ret", api, "no-copy">>} ELSE {})
+  ELSE
+       \* whatever is done to the copy, the source stays as it is
+       (IF ~cur.ok \/ e.ret \in Crashes THEN {}
+        ELSE (IF sdiff # "" THEN {<<"C14", "clone-shares-state", "source-follows-clone", Api(o), sdiff>>} ELSE {})
+        \cup (IF e.h0 # e.h1 THEN {<<"C14", "clone-shares-state", "source-follows-clone", Api(o), "deep">>} ELSE {}))
+  \cup
+       (IF ~cur.clok THEN {}
+        ELSE IF e.ret \in Crashes THEN {<<"C14", e.ret, api, cls>>}
+        ELSE
+             (IF e.ret # Ret(AsSt(cur), e.op) THEN {<<"C14", "ret", api, cls, Since>>} ELSE {})
+        \cup (IF name = "Resolve" /\ e.ret = "ok"
+                THEN {<<"C14">> \o v : v \in Viol_Owner(reg0, o.q, api, e.own, Attrs)} ELSE {})
+        \cup (IF name = "ToXML" /\ e.ret = "ok"
+                THEN {<<"C14">> \o v : v \in Viol_Owner(reg0, o.q, api, e.own, XmlAttrs)} ELSE {})
+        \* the copy holds what its history says: the source as it was when Clone was called + what was addressed to it
+        \cup (IF e.seen /\ cdiff # "" THEN {<<"C14", "copy-differs", cdiff, Since>>} ELSE {})
+        \cup (IF e.seen /\ cur.clh # "" /\ e.ch # cur.clh THEN {<<"C14", "copy-differs", "deep", Since>>} ELSE {})
+        \cup (IF name = "MutRes" /\ e.ret = "ok" /\ e.alias
+                THEN {<<"INFO-C14", "result-aliases-registry", IF e.self THEN "registered-object" ELSE "merged-copy">>} ELSE {}))
+
+Judge(e) == IF e.op.op = "OnClone" THEN JudgeCopy(e) ELSE JudgeSrc(e)
+
+\* the state the judge continues from: the source is resynchronised on what the implementation really holds
+\* after every step, the copy whenever it was looked at; in between the copy is what the specification says
+NextCur(e) ==
+  LET name == e.op.op
+      obs  == ObsFn(e.reg)
+      c1   == [cur EXCEPT !.reg = ToReg(obs), !.ok = Clean(obs)]
+  IN
+  IF name = "Clone" THEN [c1 EXCEPT !.cl = c1.reg, !.has = TRUE, !.clok = c1.ok, !.clh = "",
+                                    !.srcch = FALSE, !.clrd = FALSE, !.clch = FALSE]
+  ELSE IF name # "OnClone" THEN [c1 EXCEPT !.srcch = @ \/ name \in Mutators \cup {"CloneSwap"}]
+  ELSE IF ~cur.has \/ e.ret = "skipped" THEN c1
+  ELSE IF e.seen THEN [c1 EXCEPT !.cl = ToReg(ObsFn(e.creg)), !.clok = Clean(ObsFn(e.creg)), !.clh = e.ch,
+                                 !.srcch = FALSE, !.clrd = FALSE, !.clch = FALSE]
+  ELSE IF e.op.o.op \in Mutators THEN [c1 EXCEPT !.cl = ApplyReg(cur.cl, e.op.o), !.clh = "", !.clch = TRUE]
+  ELSE [c1 EXCEPT !.clrd = TRUE]
+
+TInit == l = 1 /\ cur = Cur0 /\ wit = {}
 
 TReset == /\ l <= Len(Trace) /\ Trace[l].ev = "reset"
-          /\ cur' = [reg |-> InitSt.reg, ok |-> TRUE] /\ wit' = wit /\ l' = l + 1
+          /\ cur' = Cur0 /\ wit' = wit /\ l' = l + 1
 
 TStep == /\ l <= Len(Trace) /\ Trace[l].ev = "step"
          /\ LET e == Trace[l] IN
               /\ wit' = AddWit(wit, Judge(e), e.case)
-              \* resynchronise on what the implementation really holds
-              /\ cur' = [reg |-> ToReg(ObsFn(e.reg)), ok |-> Clean(ObsFn(e.reg))]
+              /\ cur' = NextCur(e)
          /\ l' = l + 1
 
 TDone == /\ l = Len(Trace) + 1
